@@ -6,7 +6,8 @@ from . import common as C
 
 LEVEL = "exploration"
 RULE = ("aimed workload (steep L1, Rosenbrock, staircase, ramp targets; search_n_try in {default,0,1}; accelerate_mesh on/off; "
-        "complete_poll on/off; tol_mesh coarse..fine; all noise modes). Hooked-state monitor at every poll-step entry/exit, every "
+        "complete_poll on/off; tol_mesh coarse..fine; all noise modes; plus 20% runs whose target values follow a per-phase OUTCOME "
+        "SCRIPT over {success, incremental, fail, tie}: long success streaks at the mesh cap, alternations, all-fail). Hooked-state monitor at every poll-step entry/exit, every "
         "search-step exit and every loop end: mesh == 2**k <= 1; success recomputed INDEPENDENTLY (deterministic modes) from the "
         "boundary values fval_before - y_j and the documented forcing function max(tol_improvement*mesh^1.5, tol_fun); "
         "success => k' = min(k+1, cap), else k-1 or k-2 (acceleration + recomputed stall); k unchanged outside polls; search mesh <= "
@@ -40,6 +41,10 @@ def cases(tier, seed):
                              x0mode=str(rng.choice(["in", "onlb", "outpl"], p=[0.6, 0.2, 0.2])), land=land,
                              where=str(rng.choice(["in", "onb", "out"], p=[0.5, 0.2, 0.3])), mode=mode, options=opts,
                              max_fun_evals=int(rng.choice([80, 120, 200])))
+        if rng.random() < 0.2 and mode == "det":
+            pats = ["S", "F", "SF", "SSSF", "IF", "I", "FFFS", "T", "ST", "SIF", "SSSSSSSF"]
+            spec["target"] = {"kind": "scripted", "c": spec["target"]["c"], "where": "in",
+                              "search": pats[int(rng.integers(len(pats)))], "poll": pats[int(rng.integers(len(pats)))], "other": "F"}
         out.append({"spec": spec})
     return out
 
